@@ -67,7 +67,7 @@ CHECKS['C07'] = dict(
 CHECKS['C08'] = dict(
     category='model_checking', engine='input-enumeration', design_ref='DESIGN.md §3 C08',
     technique='exhaustive enumeration of RIB catalogue x Flush target x election decision table on the real Server.Flush against the specification table',
-    text=('14 RIBs (shared / missing / circular / self backups, cross-instance references in both directions, held operations) x 6 targets x 8 (thorough 11) election fields x 3 (thorough 6) learnt ids x both iteration orders of the maps of the RIB on a fresh real server: '
+    text=('16 RIBs (shared / missing / circular / self backups, cross-instance references in both directions, held operations) x 6 targets x 8 (thorough 11) election fields x 3 (thorough 6) learnt ids x both iteration orders of the maps of the RIB on a fresh real server: '
           'a malformed or unauthorised request gets one of the codes the specification assigns to the malformations that apply and changes nothing; an authorised one empties exactly the named instances, answers OK, '
           'and leaves deletion protection equal to the referrers that remain (checked on counters and behaviourally by re-installing groups that remaining entries still point at).'),
     note='Where specification and proto comments allow two answers (override with no id learnt; coinciding malformations) the oracle accepts the set.')
